@@ -429,7 +429,7 @@ fn macroexpand_internal(mem: &mut Memory, expression: GcRef, env: GcRef, env_mod
                 Ok(mem.allocate_cons(car, cdr))
             },
             Some(PrimitiveValue::Symbol(_)) => {
-                match lookup(mem, expression.clone(), env, &mem.get_current_module()) {
+                match lookup(mem, expression.clone(), env, env_module) {
                     Ok(value) => {
                         if let Some(PrimitiveValue::Function(f)) = value.get() {
                             if f.get_kind() == FunctionKind::Macro {
